@@ -98,3 +98,227 @@ split_array = REG.add(Contract(
     call_names=("split_array", "strax.split_array"),
     make_result=_sa_result,
 ))
+
+
+# --------------------------------------------------------------------------------------
+# Chunk objects
+# --------------------------------------------------------------------------------------
+from pyvc.engine import ClassModel, Opq, PNONE  # noqa: E402
+from pyvc.library import (Abstract, attr_alias, inline_property, setter_contract, inline_source)  # noqa: E402
+
+RTFD = "strax.remove_titles_from_dtype"
+INT_KEY = "int+np.integer"
+
+# -- property setters (sub/superrun bookkeeping; their ValueErrors carry the modelling class ValueError:runs)
+_SELF_BARE = ObjT("Chunk")
+
+subruns_setter = REG.add(Contract(
+    F, "Chunk.subruns@setter", params=dict(self=_SELF_BARE, subruns="V"),
+    raises={"ValueError:runs": lambda S, a: S.call("contracts.specfuns.bad_subruns", a.subruns, sort="bool")},
+    ensures=lambda S, a, r: [("stored", S.true)], modifies=["self._subruns"]))
+
+superrun_setter = REG.add(Contract(
+    F, "Chunk.superrun@setter", params=dict(self=_SELF_BARE, superrun="V"),
+    raises={"ValueError:runs": lambda S, a: S.true},
+    ensures=lambda S, a, r: [("stored", S.true)], modifies=["self._superrun"]))
+
+INIT_MODEL = ClassModel(setters={"subruns": setter_contract(subruns_setter), "superrun": setter_contract(superrun_setter)})
+
+_INIT_CALLS = {
+    "np.dtype": Abstract(pure=True, note="dtype normalisation"),
+    RTFD: Abstract(pure=True, note="pure function of the dtype"),
+}
+
+
+def _init_data_ok(S, a, data):
+    """The constructor's range clauses for a structured array ``data``."""
+    start, end = S.to_int(a.start), S.to_int(a.end)
+    n = data.n
+    lo = S.max(n - 500, 0)
+    return S.Implies(n > 0, S.And(data.f("time", 0) >= start,
+                                  S.forall(lo, n, lambda i: data.f("endtime", i) <= end)))
+
+
+def _init_common_ens(S, a, data_clauses):
+    o = a.self
+    return [
+        ("start and end are integers", S.And(S.is_instance(a.start, INT_KEY), S.is_instance(a.end, INT_KEY))),
+        ("start / end stored as given", S.And(o.start == S.to_int(a.start), o.end == S.to_int(a.end))),
+        ("0 <= start <= end", S.And(0 <= o.start, o.start <= o.end)),
+        ("metadata stored as given", S.And(S.eq(o.data_type, a.data_type), S.eq(o.data_kind, a.data_kind),
+                                           S.eq(o.run_id, a.run_id), S.eq(o.target_size_mb, a.target_size_mb))),
+    ] + data_clauses
+
+
+def _init_rows_ens(S, a, r):
+    o = a.self
+    return _init_common_ens(S, a, [
+        ("the data is the array given", S.is_slice(o.data, a.data, 0, a.data.n)),
+        ("dtype of the data equals the declared dtype (titles removed)",
+         S.eq(S.call(RTFD, S.arr_dtype(a.data)), S.call(RTFD, a.dtype))),
+        ("first row starts inside, and the last 500 rows end inside the chunk", _init_data_ok(S, a, a.data)),
+    ])
+
+
+def _init_rows_raise(S, a):
+    start, end = S.to_int(a.start), S.to_int(a.end)
+    return S.Or(S.Not(S.And(S.is_instance(a.start, INT_KEY), S.is_instance(a.end, INT_KEY))),
+                S.Not(S.eq(S.call(RTFD, S.arr_dtype(a.data)), S.call(RTFD, a.dtype))),
+                start < 0, start > end, S.Not(_init_data_ok(S, a, a.data)))
+
+
+_INIT_PARAMS = dict(self=ObjT("Chunk", model=INIT_MODEL), data_type="V", data_kind="V", dtype="V", run_id="V",
+                    start="V", end="V", subruns="V", superrun="V", target_size_mb="V")
+
+chunk_init_rows = REG.add(Contract(
+    F, "Chunk.__init__", variant="data=ndarray",
+    params=dict(_INIT_PARAMS, data=INTERVALS),
+    ensures=_init_rows_ens,
+    raises={"ValueError": _init_rows_raise, "ValueError:runs": lambda S, a: S.true},
+    calls=_INIT_CALLS, constructor=True,
+    call_names=("strax.Chunk", "Chunk"),
+))
+
+chunk_init_none = REG.add(Contract(
+    F, "Chunk.__init__", variant="data=None",
+    params=dict(_INIT_PARAMS, data=lambda eng, name, st: (PNONE, st)),
+    ensures=lambda S, a, r: _init_common_ens(S, a, [("an empty array stands in for None", a.self.data.n == 0)]),
+    raises={"ValueError": lambda S, a: S.Or(
+        S.Not(S.And(S.is_instance(a.start, INT_KEY), S.is_instance(a.end, INT_KEY))),
+        S.to_int(a.start) < 0, S.to_int(a.start) > S.to_int(a.end)),
+        "ValueError:runs": lambda S, a: S.true},
+    calls=_INIT_CALLS, constructor=True,
+))
+
+chunk_init_other = REG.add(Contract(
+    F, "Chunk.__init__", variant="data=not-an-array",
+    params=dict(_INIT_PARAMS, data="V"),
+    requires=lambda S, a: [("data is neither None nor an ndarray",
+                            S.And(S.Not(S.is_none(a.data)), S.Not(S.is_instance(a.data, "np.ndarray"))))],
+    ensures=lambda S, a, r: [("a chunk is never created around something that is not an array", S.false)],
+    # any exception will do: formatting the error message may itself fail on a non-array (AttributeError from
+    # __repr__), which still stops processing - the property only asks for "an exception"
+    raises={"Exception": lambda S, a: S.true},
+    calls=_INIT_CALLS, constructor=True,
+))
+
+
+# -- fully formed chunks ---------------------------------------------------------------------
+def _get_subrun_model(eng, args, kw, st, fr, k, node):
+    import z3
+    from pyvc.engine import V
+    ref, idx = args[0], args[1]
+    f = z3.Function("fn:get_subrun", V, V, V)
+    return k(Opq(f(st.heap[ref.base]["_subruns"].t, eng.to_v(idx))), st)
+
+
+def _chunk_len(eng, ref, st, fr, k, node):
+    return k(st.heap[ref.base]["data"].n, st)
+
+
+CHUNK_MODEL = ClassModel(
+    props={"subruns": attr_alias("_subruns"), "superrun": attr_alias("_superrun"),
+           "is_superrun": inline_property(F, "Chunk.is_superrun"),
+           "promised_continuity": inline_property(F, "Chunk.promised_continuity"),
+           "first_subrun": inline_property(F, "Chunk.first_subrun"),
+           "last_subrun": inline_property(F, "Chunk.last_subrun"),
+           "duration": inline_property(F, "Chunk.duration")},
+    methods={"_get_subrun": _get_subrun_model},
+    len_handler=_chunk_len)
+
+CHUNK = ObjT("Chunk", model=CHUNK_MODEL, data=INTERVALS, start="int", end="int", dtype="V", data_type="V",
+             data_kind="V", run_id="V", target_size_mb="V", _subruns="V", _superrun="V")
+
+
+def _init_obj(eng, st, bound, ref):
+    """Callers' view of a constructed chunk: its attributes are the arguments themselves."""
+    import z3
+    st = st.with_cell(ref.base, "data", bound["data"])
+    st = st.with_cell(ref.base, "start", eng.to_int(bound["start"]))
+    st = st.with_cell(ref.base, "end", eng.to_int(bound["end"]))
+    for a in ("data_type", "data_kind", "run_id", "target_size_mb"):
+        st = st.with_cell(ref.base, a, Opq(eng.to_v(bound[a])))
+    st = st.with_cell(ref.base, "dtype", Opq(z3.Function("fn:np.dtype", __import__("pyvc.engine", fromlist=["V"]).V,
+                                                        __import__("pyvc.engine", fromlist=["V"]).V)(eng.to_v(bound["dtype"]))))
+    st = st.with_cell(ref.base, "_subruns", Opq(z3.Function("fn:contracts.specfuns.norm_runs", __import__("pyvc.engine", fromlist=["V"]).V, __import__("pyvc.engine", fromlist=["V"]).V)(eng.to_v(bound["subruns"]))))
+    return st
+
+
+chunk_init_rows.new_obj = CHUNK
+chunk_init_rows.init_obj = _init_obj
+
+
+def chunk_wf(S, c):
+    """Data-model invariant of a chunk (laws of chunking)."""
+    d = c.data
+    return [("0 <= start <= end", S.And(0 <= c.start, c.start <= c.end)),
+            ("rows sorted by time", sorted_by_time(S, d)),
+            ("rows have positive duration", positive_duration(S, d)),
+            ("every row lies wholly inside the chunk",
+             S.forall(0, d.n, lambda i: S.And(c.start <= d.f("time", i), d.f("endtime", i) <= c.end))),
+            ("dtype of the data is the chunk's dtype",
+             S.eq(S.call(RTFD, S.arr_dtype(d)), S.call(RTFD, c.dtype))),
+            ("the chunk's dtype attribute is a numpy dtype", S.eq(S.call("np.dtype", c.dtype), c.dtype))]
+
+
+def _split_runs_result(eng, st, bound):
+    import z3
+    from pyvc.engine import V
+    sr, t = eng.to_v(bound["subruns"]), eng.to_v(bound["t"])
+    f0 = z3.Function("fn:split_runs_first", V, V, V)
+    f1 = z3.Function("fn:split_runs_second", V, V, V)
+    return (Opq(f0(sr, t)), Opq(f1(sr, t))), st
+
+
+split_runs_abstract = Contract(
+    F, "_split_runs_in_chunk", params=dict(subruns="V", t="int"), raises={},
+    make_result=_split_runs_result,
+    notes="callers' view: a pure function of (subruns, t); its own proof obligation is in the C14 group")
+
+
+def _csplit_ensures(S, a, r):
+    c1, c2 = r
+    o = a.self
+    d = o.data
+    that = S.max(S.min(a.t, o.end), o.start)        # the requested time clamped into the chunk
+    t2 = c1.end
+    k = c1.data.n
+    inside = S.And(o.start < that, that < o.end)
+    some_straddle = S.exists(0, d.n, lambda j: straddles(S, d, j, that))
+    meta = lambda c: S.And(S.eq(c.data_type, o.data_type), S.eq(c.data_kind, o.data_kind),
+                           S.eq(c.target_size_mb, o.target_size_mb),
+                           S.eq(c.dtype, o.dtype))
+    return [
+        ("two adjacent chunks covering the original range",
+         S.And(c1.start == o.start, c1.end == c2.start, c2.end == o.end, o.start <= t2, t2 <= o.end)),
+        ("rows concatenate to the original", S.And(0 <= k, k <= d.n, c2.data.n == d.n - k,
+                                                   S.forall(0, k, lambda j: S.And(
+                                                       c1.data.f("time", j) == d.f("time", j),
+                                                       c1.data.f("endtime", j) == d.f("endtime", j))),
+                                                   S.forall(0, d.n - k, lambda j: S.And(
+                                                       c2.data.f("time", j) == d.f("time", k + j),
+                                                       c2.data.f("endtime", j) == d.f("endtime", k + j))))),
+        ("every row lies entirely on one side of the split time",
+         S.And(S.forall(0, k, lambda j: d.f("endtime", j) <= t2), S.forall(k, d.n, lambda j: d.f("time", j) >= t2))),
+        ("split time never later than requested", t2 <= that),
+        ("no straddling row => split exactly at the (clamped) requested time", S.Implies(S.Not(some_straddle), t2 == that)),
+        ("a moved split time only with allow_early_split", S.Implies(t2 != that, a.allow_early_split)),
+        ("early split goes to the latest admissible time",
+         S.forall_val(t2 + 1, that + 1, lambda s: S.exists(0, d.n, lambda j: straddles(S, d, j, s)))),
+        ("metadata carried over to both halves", S.And(meta(c1), meta(c2))),
+    ]
+
+
+chunk_split = REG.add(Contract(
+    F, "Chunk.split",
+    params=dict(self=CHUNK, t="int", allow_early_split="bool"),
+    requires=lambda S, a: chunk_wf(S, a.self),
+    ensures=_csplit_ensures,
+    raises={"CannotSplit": lambda S, a: S.And(
+        S.Not(a.allow_early_split),
+        S.exists(0, a.self.data.n, lambda j: straddles(
+            S, a.self.data, j, S.max(S.min(a.t, a.self.end), a.self.start)))),
+        "ValueError:runs": lambda S, a: S.true},
+    calls={"_split_runs_in_chunk": split_runs_abstract},
+    notes="ValueError from the sub/superrun bookkeeping of the two constructor calls is not analysed here (C14)",
+))
